@@ -241,6 +241,29 @@ async def probe_all(chk, rng, cl, app, reps, desc, nullterm_ok=True):
         await a.cmd(b"\x19" + struct.pack("<I", sid), n=4)
     else:
         chk.fail("COM_STMT_PREPARE rejected", d, out[0][1][:60].hex() if out else None)
+    # 4b. the SAME statement bytes as on every earlier probe of this connection: they mean another text under another client
+    # set (0xC3 0xA9 is 'é' in utf8, 'Ã©' in latin1, 'Г©' in cp1251, one character in gbk / big5 / euckr, two half-width
+    # katakana in sjis), and the text the application receives must be the one of the set in force NOW
+    if cc not in WIDE:
+        raw = b"SELECT a FROM t WHERE b = '\xc3\xa9' AND c = ?"
+        try:
+            want_txt = raw.decode(REF[cc])
+        except UnicodeDecodeError:
+            want_txt = None
+        if want_txt is not None:
+            out = await a.cmd(b"\x16" + raw)
+            if out and out[0][1][:1] == b"\x00":
+                sid = struct.unpack_from("<I", out[0][1], 1)[0]
+                n0 = len(app.seen)
+                out = await a.cmd(com_stmt_execute(sid, [(3, False, 5, b"")], caps=a.caps, attrs=[]), n=60)
+                got = app.seen[n0:]
+                want = want_txt.replace("?", "5", 1)
+                if len(got) != 1 or got[0][0] != want:
+                    chk.fail("a statement prepared again from the same bytes after a change of the client character set is decoded with an earlier set",
+                             d, dict(want=want, got=[g[0] for g in got], reply=out[0][1][:40].hex() if out else None))
+                await a.cmd(b"\x19" + struct.pack("<I", sid), n=4)
+            else:
+                chk.fail("COM_STMT_PREPARE of bytes valid in the client character set rejected", d, out[0][1][:60].hex() if out else None)
     # 5. null-terminated fields (not possible in the wide sets, which MySQL does not allow as client sets)
     if nullterm_ok and cc not in WIDE:
         tbl = sample_str(rin, rng)
